@@ -96,6 +96,12 @@ type c15Step struct {
 	Offset  uint64   `json:"offset,omitempty"`
 	Length  uint64   `json:"length,omitempty"`
 	Tune    *int     `json:"tune,omitempty"` // debit ops: drawable funds were arranged to cost+Tune
+	// debit ops: where the stream dies. Transport cuts (host side, exact byte):
+	// hdr-mid, hdr-1 (inside the request header), body+0, body+1, body-half,
+	// body-1 (inside the raw sector body of a write), resp+N (request complete;
+	// N bytes of the host's answer / read data delivered). Renter side:
+	// close-after-header, stall-close (half the body, a pause, then close).
+	Cut string `json:"cut,omitempty"`
 }
 
 type c15Seq struct {
@@ -226,6 +232,36 @@ func (c *c15) do(st c15Step) (res c15Result) {
 	ctx := ctxBG()
 	contract := c.contracts[st.Contract%len(c.contracts)]
 	hostKey := c.lab.HostKey.PublicKey()
+	// arm arms the transport cut named by st.Cut for a request of hdr header
+	// bytes and body payload bytes; it returns true if the renter itself is to
+	// abandon the exchange instead.
+	arm := func(hdr, body int) (renterSide bool) {
+		var n int
+		switch st.Cut {
+		case "":
+			return false
+		case "close-after-header", "stall-close":
+			return true
+		case "hdr-mid":
+			c.raw.C.CutNext(rhplab.Cut{Run: 0, Bytes: hdr / 2})
+		case "hdr-1":
+			c.raw.C.CutNext(rhplab.Cut{Run: 0, Bytes: hdr - 1})
+		case "body+0":
+			c.raw.C.CutNext(rhplab.Cut{Run: 0, Bytes: hdr})
+		case "body+1":
+			c.raw.C.CutNext(rhplab.Cut{Run: 0, Bytes: hdr + 1})
+		case "body-half":
+			c.raw.C.CutNext(rhplab.Cut{Run: 0, Bytes: hdr + body/2})
+		case "body-1":
+			c.raw.C.CutNext(rhplab.Cut{Run: 0, Bytes: hdr + body - 1})
+		default:
+			if _, err := fmt.Sscanf(st.Cut, "resp+%d", &n); err != nil {
+				panic("unknown cut " + st.Cut)
+			}
+			c.raw.C.CutNext(rhplab.Cut{Run: 1, Bytes: n})
+		}
+		return false
+	}
 	switch st.Op {
 	case "fund":
 		var deps []proto4.AccountDeposit
@@ -323,6 +359,10 @@ func (c *c15) do(st c15Step) (res c15Result) {
 			req.Root = rhplab.UnknownRoot(3)
 		}
 		var resp proto4.RPCReadSectorResponse
+		if arm(rhplab.RequestLen(proto4.RPCReadSectorID, &req), 0) {
+			res.err = c.raw.Abandon(proto4.RPCReadSectorID, &req, nil, stallFor(st.Cut))
+			break
+		}
 		res.err = c.raw.RoundTrip(proto4.RPCReadSectorID, &req, &resp, nil, false, func(rd io.Reader) error {
 			buf := make([]byte, resp.DataLength)
 			n := 0
@@ -351,6 +391,10 @@ func (c *c15) do(st c15Step) (res c15Result) {
 			req.Root = rhplab.UnknownRoot(3)
 		}
 		var resp proto4.RPCVerifySectorResponse
+		if arm(rhplab.RequestLen(proto4.RPCVerifySectorID, &req), 0) {
+			res.err = c.raw.Abandon(proto4.RPCVerifySectorID, &req, nil, stallFor(st.Cut))
+			break
+		}
 		res.err = c.raw.RoundTrip(proto4.RPCVerifySectorID, &req, &resp, nil, false, nil)
 		if res.err == nil && !proto4.VerifyLeafProof(resp.Proof, resp.Leaf, req.LeafIndex, req.Root) {
 			res.err = rhp.ErrInvalidProof
@@ -363,6 +407,14 @@ func (c *c15) do(st c15Step) (res c15Result) {
 		}
 		req := proto4.RPCWriteSectorRequest{Prices: c.prices, Token: c.token(st.Acc[0], st.Bad), DataLength: st.Length}
 		var resp proto4.RPCWriteSectorResponse
+		if arm(rhplab.RequestLen(proto4.RPCWriteSectorID, &req), len(data)) {
+			part := data[:len(data)/2]
+			if st.Cut == "close-after-header" {
+				part = nil
+			}
+			res.err = c.raw.Abandon(proto4.RPCWriteSectorID, &req, part, stallFor(st.Cut))
+			break
+		}
 		res.err = c.raw.RoundTrip(proto4.RPCWriteSectorID, &req, &resp, data, false, nil)
 	case "balance":
 		res.bal, res.err = rhp.RPCAccountBalance(ctx, c.cl, c.acct(st.Acc[0]))
@@ -373,6 +425,26 @@ func (c *c15) do(st c15Step) (res c15Result) {
 }
 
 // expectedCost prices a debit RPC from its tapped request.
+func stallFor(cut string) time.Duration {
+	if cut == "stall-close" {
+		return 30 * time.Millisecond
+	}
+	return 0
+}
+
+// requestComplete reports whether the whole request of a debit RPC (for a
+// write: including every announced body byte) reached the host.
+func requestComplete(x *rhplab.Exchange) bool {
+	in := x.In(0)
+	if in == nil || in.Obj == nil {
+		return false
+	}
+	if w, ok := in.Obj.(*proto4.RPCWriteSectorRequest); ok {
+		return uint64(in.Trailing) >= w.DataLength
+	}
+	return true
+}
+
 func expectedCost(x *rhplab.Exchange) (acc proto4.Account, tok proto4.AccountToken, usage proto4.Usage, kind string, ok bool) {
 	switch req := x.Request().(type) {
 	case *proto4.RPCReadSectorRequest:
@@ -524,25 +596,48 @@ func (c *c15) step(st c15Step) error {
 		}
 	}
 
-	// per-RPC: paid => served and delivered; not paid => nothing served, no data
+	// per-RPC: paid => served; not paid => nothing served, no data, no success
+	// answer; no debit before the whole request (incl. a write's body) arrived
+	debitRPCs, unpaidRPCs := 0, 0
 	for _, id := range append(c.raw.C.TakeStreams(), c.cl.TakeStreams()...) {
 		stm := c.lab.Mux.Stream(id)
 		x, _ := rhplab.Parse(stm)
 		if x == nil {
 			continue
 		}
+		_, wasPaid := paid[id]
 		_, _, _, kind, isDebit := expectedCost(x)
 		if !isDebit {
+			if wasPaid && served[id] == 0 {
+				c.report("paid-but-not-served:unknown", "an account was debited but no sector operation followed in that RPC", nil)
+			}
 			continue
 		}
-		_, wasPaid := paid[id]
+		debitRPCs++
+		complete := requestComplete(x)
 		out := x.Out(0)
+		if st.Cut != "" {
+			phase := phaseOf(stm)
+			c.r.SetAdd("debit_rpc_abort_points", kind+":"+st.Cut+":"+phase)
+			c.r.Distinct("cut:" + kind + ":" + st.Cut + ":" + phase)
+			if !complete {
+				c.r.Count("aborted_before_request_complete_"+kind, 1)
+			} else if res.err != nil {
+				c.r.Count("aborted_after_request_complete_"+kind, 1)
+			}
+		}
+		if debited[id] && !complete {
+			c.report("debit-before-request-complete:"+kind, "an account was debited although the request (for a write: its sector body) had not arrived in full", map[string]any{"exchange": x.Describe(), "cut": st.Cut})
+		}
 		switch {
 		case wasPaid && served[id] == 0:
-			c.report("paid-but-not-served:"+kind, "an account was debited but the sector operation was not carried out", nil)
-		case !wasPaid && (out == nil || out.HostErr == nil || out.Trailing != 0 || len(res.data) != 0):
-			c.report("data-without-payment:"+kind, "an RPC whose debit failed or never happened did not end in a bare error", map[string]any{"exchange": x.Describe()})
+			c.report("paid-but-not-served:"+kind, "an account was debited but the sector operation was not carried out in that RPC", map[string]any{"exchange": x.Describe(), "cut": st.Cut})
+		case !wasPaid && ((out != nil && (out.Obj != nil || out.Trailing != 0)) || len(res.data) != 0):
+			c.report("data-without-payment:"+kind, "an RPC whose debit failed or never happened was answered with more than an error", map[string]any{"exchange": x.Describe()})
+		case !wasPaid && st.Cut == "" && (out == nil || out.HostErr == nil):
+			c.report("data-without-payment:"+kind, "an uncut RPC whose debit failed or never happened did not end in a bare error", map[string]any{"exchange": x.Describe()})
 		case !wasPaid:
+			unpaidRPCs++
 			c.r.Count("unpaid_rpcs_bare_error", 1)
 		}
 		if wasPaid && kind == "read" && res.err == nil {
@@ -552,10 +647,18 @@ func (c *c15) step(st c15Step) error {
 			}
 		}
 	}
+	for id := range paid {
+		if served[id] == 0 && c.lab.Mux.Stream(id) == nil {
+			c.report("paid-but-not-served:unknown", "an account was debited but no sector operation followed in that RPC", nil)
+		}
+	}
 
 	// balances after the step equal the ledger
 	post := c.ledgerSnapshot()
 	c.compareLedger(post)
+	if debitRPCs > 0 && debitRPCs == unpaidRPCs && !ledgerEqual(pre, post) {
+		c.report("unpaid-rpc-changed-ledger:"+st.Op, "an RPC that was not paid for (failed, refused or abandoned before payment) changed balances", map[string]any{"pre": pre.strings(), "post": post.strings(), "cut": st.Cut})
+	}
 	if st.Op == "balance" && res.err == nil && !res.bal.Equals(c.led.acc[c.acct(st.Acc[0])]) {
 		c.report("balance-rpc-wrong", "RPCAccountBalance differs from the ledger", map[string]any{"rpc": hs(res.bal)})
 	}
